@@ -949,7 +949,7 @@ _HELD_CHILDREN = [(0, 1), (1, 254), (100, 0)]
 _HELD_TYPES = [(47, 2), (24, 0), (48, 47), (2, 49), (32, 300), (0, 48)]
 
 
-def held_payload_histories(ctx, corr: Corr):
+def held_payload_histories(ctx, corr: Corr, grid_only=False):
     """Histories about WHAT a held command carries when it is finally written.  For every payload kind, under every
     protocol with a wake signal: the command is held for a sleeping node (also for a second sleeping node, also under a
     second key with a value that differs in its outer whitespace only), the same message is sent unbuffered (an
@@ -957,7 +957,8 @@ def held_payload_histories(ctx, corr: Corr):
     orders by values differing in outer whitespace only, each followed by a wake; the other node wakes last.  Under
     1.x (flag restored from persistence) the commands are held and no message releases them.  Then random sleepy
     histories drawing their values from the same pool.  Only recv / send operations: every history also runs through
-    the Lean model."""
+    the Lean model.  `grid_only` (C12's use): one version per kind in rotation, no unbuffered send of the held message
+    itself, no random histories."""
     kinds = held_payload_kinds(ctx.tier == "thorough")
     t0 = gw.DEFAULT_TIME
     hists = []
@@ -974,7 +975,7 @@ def held_payload_histories(ctx, corr: Corr):
                 pre.append(("child", node, c, c, 36, ""))
         # very long values: one version each and a shorter history (over 1000 characters in the quick tier, over 25000 always)
         long = len(p) > (1000 if ctx.tier == "quick" else 25000)
-        versions = [V20[i % 3]] if long else lib.VERSIONS[1:]
+        versions = [V20[i % 3]] if long else [lib.VERSIONS[1 + i % 4]] if grid_only else lib.VERSIONS[1:]
         for v in versions:
             wake_t = 32 if v == "2.2" else 22
 
@@ -992,8 +993,12 @@ def held_payload_histories(ctx, corr: Corr):
                           ("send", main + (p,), True, ()), ("send", main + (q,), True, ()), wake(n), wake(m)]
             else:
                 h.ops += [("recv", f"{n};255;3;0;22;500", (), t0), ("recv", f"{n};255;3;0;0;57", (), t0)]
+            if grid_only:
+                h.ops = [op for op in h.ops if op[0] != "send" or op[2]]
             hists.append(h)
             corr.count("held payload kind: " + family)
+    if grid_only:
+        return hists
     rng = lib.rng_for(ctx.seed, "c07held")
     pool = [p for _, _, p in kinds if len(p) <= 1000]
     pool += [_other_value(p) for p in pool]
@@ -1788,6 +1793,14 @@ def run_c12(ctx) -> Corr:
     hists += _c12_between_histories(ctx, corr)
     corr.count("histories: one send per destination state, then a wake of every node", n_base)
     corr.count("histories: traffic between hold and wake", len(hists) - n_base)
+    # what is held is the message that was sent: value kinds an immediate write leaves alone (shared with C07)
+    n_base = len(hists)
+    hists += held_payload_histories(ctx, corr, grid_only=True)
+    corr.count("histories: held payload kinds", len(hists) - n_base)
+    corr.notes.append("the held-payload histories (held_payload_histories, shared with C07: a held value with outer whitespace of "
+                      "every Python whitespace kind, delimiters, empty, numeric-looking, non-ASCII, control characters, very long; "
+                      "second node, second key, overwrite in both orders) are recv / send operations only: compared with the "
+                      "Lean model on the writes view and judged by _c12_oracle")
     impl = run_both(hists, corr, ctx, "writes", "writes view")
     for h, io in zip(hists, impl):
         _c12_oracle(corr, h, io)
